@@ -12,6 +12,7 @@ from vf.runner import Ob
 from vf.sched import Sched
 
 LEVEL = "other"
+TECHNIQUE = ('symx: z3-backed symbolic execution of the real commit path under a baton scheduler (schedule + commit clock symbolic, pre-emption bound K); serial-model assertions discharged by z3 per path; concrete replay')
 EXPLANATION = (
     "Bounded symbolic execution (symx/z3) of the real commit path under a baton scheduler: 2-3 committers, all "
     "interleavings at shared-object granularity within a pre-emption bound K, symbolic clock readings; per path "
